@@ -59,11 +59,7 @@ def parseCfg (j : Json) : Except String RawCfg := do
            inputType := ← Driver.getStr j "input_type", average := ← Driver.getStr j "average",
            vocab := vocab, kList := kl }
 
-inductive Tree where
-  | leaf (i : Nat)
-  | node (ts : List Tree)
-
-partial def parseTree (j : Json) : Except String Tree :=
+partial def parseTree (j : Json) : Except String MTree :=
   match j with
   | .arr a => do return .node (← a.toList.mapM parseTree)
   | _ => do return .leaf (← j.getNat?)
@@ -167,24 +163,7 @@ def resultJson (c : Cfg) (st : Option CMArr) : Except String (Except ErrKind Jso
 
 def usesSqrt (m : Metric) : Bool := (radicand? (α := Rat) m).isSome
 
-partial def evalTreeCM (c : Cfg) (states : Array (Option CMArr)) : Tree → Except String (Except ErrKind (Option CMArr))
-  | .leaf i => match states[i]? with
-    | some s => pure (.ok s)
-    | none => throw "tree leaf out of range"
-  | .node ts => do
-    let mut sts : List (Option CMArr) := []
-    for t in ts do
-      match ← evalTreeCM c states t with
-      | .error e => return .error e
-      | .ok s => sts := sts ++ [s]
-    if sts.isEmpty then throw "empty merge node"
-    pure (mergeStates c sts)
-
-partial def treeLeaves : Tree → List Nat
-  | .leaf i => [i]
-  | .node ts => (ts.map treeLeaves).flatten
-
-partial def evalTreeSw (states : Array SwState) : Tree → Except String SwState
+partial def evalTreeSw (states : Array SwState) : MTree → Except String SwState
   | .leaf i => match states[i]? with
     | some s => pure s
     | none => throw "tree leaf out of range"
@@ -197,7 +176,7 @@ partial def evalTreeSw (states : Array SwState) : Tree → Except String SwState
 def perExampleJson (kv : List (Metric × List Rat)) : Json :=
   Json.mkObj (kv.map fun (m, xs) => (m.value, Json.arr (xs.map Driver.ratJson).toArray))
 
-def runSamplewise (c : Cfg) (shards : List (List Batch)) (tree : Tree) : Except String Json := do
+def runSamplewise (c : Cfg) (shards : List (List Batch)) (tree : MTree) : Except String Json := do
   -- rational metrics through the model; square-root metrics per example in ℚ(√r)
   let cRat := { c with metrics := c.metrics.filter (fun m => !usesSqrt m) }
   let mut states : Array SwState := #[]
@@ -227,7 +206,7 @@ def runSamplewise (c : Cfg) (shards : List (List Batch)) (tree : Tree) : Except 
     perEx := perEx.push (Json.arr pe.toArray)
     surdCells := surdCells.push sc
   let st ← evalTreeSw states tree
-  let leaves := treeLeaves tree
+  let leaves := tree.leaves
   let kv : List (Metric × Json) := c.metrics.map fun m =>
     if usesSqrt m then
       let cells := (leaves.map fun i => ((surdCells[i]?.getD []).filter (·.1 == m)).map (·.2)).flatten.flatten
@@ -237,13 +216,13 @@ def runSamplewise (c : Cfg) (shards : List (List Batch)) (tree : Tree) : Except 
   | .error e => return errOut e
   | .ok r => return Json.mkObj [("result", r), ("per_example", Json.arr perEx)]
 
-def runCM (c : Cfg) (shards : List (List Batch)) (tree : Tree) : Except String Json := do
+def runCM (c : Cfg) (shards : List (List Batch)) (tree : MTree) : Except String Json := do
   let mut states : Array (Option CMArr) := #[]
   for shard in shards do
-    match shard.foldlM (updateState c) none with
+    match feedApi c shard with
     | .error e => return errOut e
     | .ok s => states := states.push s
-  match ← evalTreeCM c states tree with
+  match evalTree c states.toList tree with
   | .error e => return errOut e
   | .ok st =>
     match ← resultJson c st with
